@@ -11,6 +11,9 @@ BIG = 3000
 def problems(rng: random.Random):
     """(name, problem spec, fullconfig, kinds it suits, solver kwargs per kind)."""
     tab = gen.union(random.Random(11), 4, PD=2, v0max=1, plain=True)
+    tab["render"]["aoffset"] = 2 ** 25 + 1       # integer actions that single precision cannot hold
+    intpol = gen.union(random.Random(14), 4, PD=2, na=3, v0max=1, plain=True, chain=False)
+    gen.int_valued_pol0(random.Random(15), intpol)   # float action space (half units), supplied initial policy returned as integers
     uni = gen.unichain(random.Random(12), ns=5, PD=2, v0max=2)
     uni["render"]["v0_f32"] = True        # initial values supplied in single precision
     ring = gen.ring(random.Random(13), 3, extra=2)
@@ -26,6 +29,7 @@ def problems(rng: random.Random):
         "tabular": ({"type": "tabular", "mdp": tab}, False),
         "tab_unichain": ({"type": "tabular", "mdp": uni}, False),
         "tab_ring": ({"type": "tabular", "mdp": ring}, False),
+        "tab_intpol": ({"type": "tabular", "mdp": intpol}, False),
     }
 
 
